@@ -13,7 +13,7 @@ import vlib
 from vlib import Check, make_cfg, run_tlc, Infra
 
 PROP = "C14"
-INVS = ["Inv_NoAckedLoss", "Inv_Conservation", "Inv_BarrierClosesGap"]
+INVS = ["Inv_NoAckedLoss", "Inv_NoAckedLossStrict", "Inv_Conservation", "Inv_BarrierClosesGap"]
 PROPS = ["Prop_FlushCovers"]
 
 
@@ -258,6 +258,12 @@ def run(tier):
         model_check(chk, "MC_Writer_faithful", consts("c_Clients2", 2, 1, 1), 3000)
         model_check(chk, "MC_Writer_faithful_2admin", consts("c_Clients1", 2, 2, 1), 3000)
         model_check(chk, "MC_Writer_ideal", consts("c_Clients2", 2, 1, 1, barrier=True, closewaits=True), 3000)
+    # canary: without the capture barrier the specification must exhibit the journal/apply gap (a loss without exemption)
+    rc = run_tlc("MC_Writer", "MC_Writer_gap_canary.cfg", cfg_text=make_cfg("SpecH", consts("c_Clients1", 1, 1, 0, capturewaits=False, snapfails=False),
+                                                                         ["Inv_NoAckedLossStrict"], [], view="ViewH"), timeout=900)
+    chk.cov["tlc_runs"].append({"config": "MC_Writer_gap_canary", "expected": "Inv_NoAckedLossStrict violated", "violated": rc.violated, "wall_s": round(rc.wall, 1)})
+    if rc.violated != "Inv_NoAckedLossStrict":
+        chk.infra.append("canary: with CaptureWaits=FALSE the specification must lose an acknowledged write, TLC said: %s %s" % (rc.violated, (rc.error or "")[:300]))
     # 2. forced schedules from complete TLC behaviours
     recs = corpus(chk, "MC_Writer_corpus", consts("c_Clients2", 1, 1, 0), timeout=1800)
     recs += corpus(chk, "MC_Writer_walks", consts("c_Clients2", 3, 2, 1), simulate=400 if quick else 4000, depth=60)
